@@ -674,7 +674,7 @@ func ruleBufferLimits(c *Ctx, r *Report) {
 			}
 		}
 	}
-	r.Check(len(limitCmps) == 2 && consts[2000000] && consts[1000], rule2, short(push)+":limits", c.pos(push.Pos()), "size limit 2000000 bytes and count limit 1000 fragments compared in Push", fmt.Sprintf("Push no longer compares against both documented limits (2 MB, 1000 fragments): found %d comparisons %v", len(limitCmps), consts))
+	r.Check(len(limitCmps) >= 2 && consts[2000000] && consts[1000], rule2, short(push)+":limits", c.pos(push.Pos()), "size limit 2000000 bytes and count limit 1000 fragments compared in Push", fmt.Sprintf("Push no longer compares against both documented limits (2 MB, 1000 fragments): found %d comparisons %v", len(limitCmps), consts))
 	for _, u := range ups {
 		key := short(u.fn) + ":" + u.f
 		if u.fn == push {
